@@ -77,7 +77,7 @@ class Model:
         return getattr(self, "_" + op[0])(op)
 
     def _mkv(self, op):
-        _, name, cname, links, unis = op
+        _, name, cname, links, unis = op[:5]
         if not all(l in self.L for l in links) or not all(u in self.U for u in unis) or self.exists(name):
             return SKIP
         self.V[name] = {"links": [], "unis": []}
@@ -92,7 +92,7 @@ class Model:
         return Expect("ok", name)
 
     def _mku(self, op):
-        _, name, verts, laws = op
+        _, name, verts, laws = op[:4]
         if not all(v in self.V for v in verts) or (laws is not None and laws not in self.W) or self.exists(name):
             return SKIP
         self.V[name] = {"links": [], "unis": []}
@@ -132,7 +132,7 @@ class Model:
         return Expect("ok", name)
 
     def _mkl(self, op):
-        _, name, verts = op
+        _, name, verts = op[:3]
         if not all(v in self.V for v in verts) or self.exists(name):
             return SKIP
         self.L[name] = {"cls": "MultiLink", "verts": list(verts)}
